@@ -58,3 +58,170 @@ class DocGen:
         s = ''
         if self.R.random() < 0.3: s += '# header\n' + ('\n' if self.R.random() < 0.5 else '')
         return s + self.mset(0, 3) + '\n'
+
+
+class DocGen2(DocGen):
+    """richer F0 generator: opaque atoms (interpolated / indented strings, floats, zero-padded integers, search and
+    home paths), quoted names, `rec`, comment-only and blank-only containers, all single-line comment spellings,
+    and every final-newline situation"""
+    def atom(self):
+        R = self.R
+        if R.random() < 0.12:
+            return R.choice(['"a ${toString x} b"', "''\n      multi\n      line ${x}\n    ''", '0042', '1.5', '"q\\"uote"', '<nixpkgs>', '~/x', '/abs/p'])
+        return DocGen.atom(self)
+    def comment(self, ind):
+        k = self.R.randrange(10)
+        if k < 6: return ' ' * ind + '# ' + self.R.choice(['note', 'TODO: x', 'c c c'])
+        if k == 6: return ' ' * ind + '#nospace'
+        if k == 7: return ' ' * ind + '#'
+        if k == 8: return ' ' * ind + '/* block */'
+        return ' ' * ind + '/** doc */'
+    def value(self, ind, depth):
+        R = self.R; k = R.randrange(10)
+        if depth <= 0 or k < 4: return self.atom()
+        if k < 6: return self.mset(ind, depth - 1)
+        if k < 8: return self.mlist(ind, depth - 1)
+        if k == 8:
+            if R.random() < 0.5: return '{ %s = %s; }' % (self.ident(), self.atom())
+            return R.choice(['rec ', '']) + '{ %s = %s; %s_ = [ %s %s ]; }' % (self.ident(), self.atom(), self.ident(), self.atom(), self.atom())
+        return '[ %s ]' % self.atom() if R.random() < 0.5 else '[ ]' if R.random() < 0.5 else '{ }'
+    def bindings(self, ind, depth, n):
+        R = self.R; lines = []; names = set()
+        for i in range(n):
+            if i > 0 and R.random() < 0.2: lines.append('')
+            if R.random() < 0.25: lines.append(self.comment(ind))
+            nm = self.ident()
+            while nm in names: nm = nm + '_'
+            if R.random() < 0.1: nm = '"q %s"' % nm.replace("'", '')
+            while nm in names: nm = nm[:-1] + '_"' if nm.endswith('"') else nm + '_'
+            names.add(nm)
+            if R.random() < 0.15: nm = nm + '.' + self.ident()
+            l = ' ' * ind + nm + ' = ' + self.value(ind, depth) + ';'
+            if R.random() < 0.2: l += ' # eol'
+            lines.append(l)
+        if R.random() < 0.15: lines.append(self.comment(ind))
+        return lines
+    def mset(self, ind, depth):
+        R = self.R
+        if R.random() < 0.08: return R.choice(['{\n\n' + ' ' * ind + '}', '{\n' + self.comment(ind + 2) + '\n' + ' ' * ind + '}'])
+        return R.choice(['', '', '', 'rec ']) + '{\n' + '\n'.join(self.bindings(ind + 2, depth, R.randrange(1, 4))) + '\n' + ' ' * ind + '}'
+    def doc(self):
+        R = self.R; s = ''
+        if R.random() < 0.3: s += '# header\n' + ('\n' if R.random() < 0.5 else '')
+        s += self.mset(0, 3)
+        k = R.randrange(6)
+        if k == 0: s += ' # eol at end\n'
+        elif k == 1: s += '\n# trailing\n'
+        elif k == 2: s += '\n\n# trailing after blank\n# more\n'
+        elif k == 3: s += ''
+        else: s += '\n'
+        return s
+
+OPAQ = ('string_expression', 'indented_string_expression', 'comment', 'path_expression', 'spath_expression', 'hpath_expression', 'select_expression', 'attrpath')
+WS = [' ', '  ', '\t', ' \t ', '\n', '\n\n', '\n  ', '\n      ', ' \n ', '\n\n\n   ', '   \n\t\n ', '\n\t']
+def perturb(R, s, parse_to_ast):
+    """rewrite the whitespace gaps between tokens arbitrarily (line comments stay followed by a newline)"""
+    def leaves(n, o):
+        if n.type in OPAQ or n.child_count == 0:
+            if n.end_byte > n.start_byte: o.append(n)
+            return
+        for c in n.children: leaves(c, o)
+    root = parse_to_ast(s); o = []; leaves(root, o); b = s.encode(); res = ''; pos = 0
+    for i, n in enumerate(o):
+        g = b[pos:n.start_byte].decode()
+        if i > 0:
+            if o[i - 1].type == 'comment' and o[i - 1].text.startswith(b'#'): g = R.choice(['\n', '\n\n', '\n   ', '\n\n\n\t'])
+            elif n.type == 'comment': g = g if R.random() < 0.5 else (R.choice(WS) if '\n' in g else R.choice([' ', '   ', '\t']))
+            elif R.random() < 0.5: g = R.choice(WS) if g else R.choice(['', ' ', '\n'])
+        res += g + n.text.decode(); pos = n.end_byte
+    return res + b[pos:].decode()
+
+
+class PkgGen:
+    """canonical package-file idiom: header comment, lambda head (inline / multi-line formals, @-pattern), let block,
+    assert, call head with (rec) attribute set, attrpaths, inherit, lists, indented strings, with/if values, comments"""
+    def __init__(self, R): self.R = R
+    PIDS = ['lib','stdenv','fetchurl','pkgs','python3','openssl','zlib','cmake','version','pname','src','meta','hash','url']
+    def ident(self): return self.R.choice(self.PIDS)
+    def s(self, n): return ' '*n
+    def atom(self):
+        return self.R.choice([lambda: '"%s"'%self.R.choice(['1.2.3','demo','sha256-AAAA=','https://x/${pname}-${version}.tar.gz']),
+                         lambda: str(self.R.randrange(100)), self.ident, lambda: 'true', lambda:'false', lambda:'null',
+                         lambda: 'lib.'+self.R.choice(['licenses.mit','platforms.unix','maintainers.hoh']), lambda: './patches/fix.patch',
+                         lambda: 'pkgs.%s.%s'%(self.ident(),self.ident())])()
+    def comment(self, ind): return self.s(ind)+'# '+self.R.choice(['note','TODO: bump','see upstream'])
+    def simple_list(self, ind):
+        n=self.R.randrange(0,4)
+        if n==0: return '[ ]'
+        if n==1 and self.R.random()<0.6: return '[ %s ]'%self.atom()
+        lines=[]
+        for i in range(n):
+            if self.R.random()<0.15: lines.append(self.comment(ind+2))
+            l=self.s(ind+2)+self.atom()
+            if self.R.random()<0.1: l+=' # why'
+            lines.append(l)
+        return '[\n'+'\n'.join(lines)+'\n'+self.s(ind)+']'
+    def istring(self, ind):
+        return "''\n"+self.s(ind+2)+"echo hi\n"+self.s(ind+2)+"make ${lib.concatStringsSep \" \" flags}\n"+self.s(ind)+"''"
+    def value(self, ind, depth):
+        k=self.R.randrange(14)
+        if depth<=0 or k<4: return self.atom()
+        if k<6: return self.simple_list(ind)
+        if k==6: return self.istring(ind)
+        if k==7: return 'with lib; ' + self.simple_list(ind)
+        if k==8: return 'with lib; ' + self.mset(ind, depth-1, max_n=3)
+        if k==9: return 'if %s then %s else %s'%(self.ident(), self.atom(), self.atom())
+        if k==10: return '%s {\n%s\n%s}'%(self.R.choice(['fetchurl','fetchFromGitHub','lib.mkIf cond']), '\n'.join(self.bindings(ind+2, depth-1, self.R.randrange(1,4))), self.s(ind))
+        if k==11: return self.mset(ind, depth-1)
+        if k==12: return '%s %s'%(self.ident(), self.atom())
+        return '{ %s = %s; }'%(self.ident(), self.atom())
+    def bindings(self, ind, depth, n, allow_inherit=True):
+        lines=[]; names=set()
+        for i in range(n):
+            if i>0 and self.R.random()<0.25: lines.append('')
+            if self.R.random()<0.2: lines.append(self.comment(ind))
+            if allow_inherit and self.R.random()<0.15:
+                if self.R.random()<0.5: lines.append(self.s(ind)+'inherit %s;'%' '.join(self.R.sample(self.PIDS, self.R.randrange(1,4))))
+                else: lines.append(self.s(ind)+'inherit (%s) %s;'%(self.ident(), ' '.join(self.R.sample(self.PIDS, self.R.randrange(1,3)))))
+                continue
+            nm=self.ident()
+            while nm in names: nm+='_'
+            names.add(nm)
+            if self.R.random()<0.12: nm+= '.'+self.R.choice(['a','b','c'])
+            l=self.s(ind)+nm+' = '+self.value(ind,depth)+';'
+            if self.R.random()<0.12: l+=' # eol'
+            lines.append(l)
+        return lines
+    def mset(self, ind, depth, max_n=5):
+        return self.R.choice(['','','','rec '])+'{\n'+'\n'.join(self.bindings(ind+2, depth, self.R.randrange(1,max_n)))+'\n'+self.s(ind)+'}'
+    def formals(self):
+        names=self.R.sample(self.PIDS, self.R.randrange(1,6))
+        k=self.R.randrange(4)
+        if k==0 and len(names)<=2:  # inline
+            return '{ '+', '.join(names)+(', ...' if self.R.random()<0.4 else '')+' }:'
+        # multi-line, must end with ... to stay parseable by the installed grammar (no trailing comma)
+        items=[]
+        for n in names:
+            it = n + (' ? '+self.R.choice(['null','false','"x"','{ }','[ ]']) if self.R.random()<0.25 else '')
+            items.append('  '+it+',')
+        items.append('  ...')
+        head='{\n'+'\n'.join(items)+'\n}'
+        if self.R.random()<0.15: head += '@args'
+        return head+':'
+    def doc(self):
+        out=''
+        if self.R.random()<0.3: out+='# SPDX header\n'+('\n' if self.R.random()<0.6 else '')
+        k=self.R.randrange(5)
+        body_call = self.R.choice(['stdenv.mkDerivation','python3.pkgs.buildPythonPackage','mkShell'])
+        rec = self.R.choice(['',' rec'])
+        main = body_call+rec+' {\n'+'\n'.join(self.bindings(2,2,self.R.randrange(2,7)))+'\n}'
+        if k==0: out+=main
+        else:
+            out+=self.formals()+'\n'
+            if k>=3:
+                out+='\nlet\n'+'\n'.join(self.bindings(2,1,self.R.randrange(1,4)))+'\nin\n' if self.R.random()<0.7 else 'let\n'+'\n'.join(self.bindings(2,1,self.R.randrange(1,4)))+'\nin\n'
+            if k==2: out+='\n'
+            if k==4 and self.R.random()<0.4: out+='assert %s != null;\n'%self.ident()
+            out+=main
+        return out+'\n'
+
